@@ -23,11 +23,12 @@ def gen_typed_column(R, n, kind=None, allow_null=True):
         else: vals = [R.choice([0, 7, -3])] * n
         return kind, pd.Series(vals, dtype="int64")
     if kind == "float":
-        style = R.choice(["cat", "cont", "tiny", "huge", "money", "const"])
+        style = R.choice(["cat", "cont", "tiny", "huge", "money", "const", "pvalue"])
         if style == "cat": ks = [R.choice([0.5, 1.25, 2.0, 3.75, -1.5, 10.0]) for _ in range(R.choice([2, 3, 5]))]; vals = [R.choice(ks) for _ in range(n)]
         elif style == "cont": vals = [round(R.gauss(50, 20), R.choice([0, 1, 3])) for _ in range(n)]
         elif style == "tiny": vals = [R.choice([1.5e-9, 2.5e-9, 4e-9, 1.25e-8]) for _ in range(n)]
         elif style == "huge": vals = [R.choice([1e9, 2.5e9, 1e9 + 0.5, -3e8]) for _ in range(n)]
+        elif style == "pvalue": vals = [R.choice([3.2e-16, 4.7e-17, 1.5e-18, 0.05]) for _ in range(n)]      # more than 15 decimal places
         elif style == "money": vals = [round(R.lognormvariate(3, 1), 2) for _ in range(n)]
         else: vals = [R.choice([0.0, 2.5, -1e-6])] * n
         s = pd.Series(vals, dtype=float)
@@ -412,6 +413,69 @@ def stream_sampleD(ctx, built, ntables, max_rows=80, name="S-sampleD"):
                 S.mismatch({"table": typed_summary(t), "main": mainc, "max_weight": mw}, g[k] if k < len(g) else "<missing>",
                            exp[k] if k < len(exp) else "<missing>", f"(line {k} of {len(exp)}/{len(g)})")
     ctx.obligation(f"correspondence {name} (whole default-strategy synthesis: plan and table, exact)", "correspondence", S.d["mismatches"] == 0, f"{S.d['mismatches']} mismatches")
+    return S
+
+
+def stream_micro_refit(ctx, built, ntables, oracle=None, name="S-micro-refit"):
+    """the same convertor objects fitted to a table, used, fitted again to a table in other units (apply_convertors re-fits the scalers in
+    place) and used again: the second generation must decode with the second fit"""
+    from syndiffix.bucket import harvest
+    from syndiffix.microdata import generate_microdata, apply_convertors
+    from syndiffix.forest import Forest
+    from syndiffix.counters import UniquePidCountersFactory
+    R = ctx.rng
+    S = ctx.stream(name, "typed tables: convertors fitted and used for one generation, then apply_convertors(same convertors, the table with numeric / "
+                   "timestamp columns rescaled and shifted) and a second forest, harvest and generate_microdata; cells of the second generation compared "
+                   "exactly with the model (which reads the scaler coefficients after the second fit); non-trivial = a numeric or timestamp column present")
+    for ti in range(ntables):
+        t = gen_typed_table(R, max_rows=80, ncols=R.choice([1, 2, 3]))
+        t["pids"] = None
+        try:
+            convs, data, F, kind, ft = prepare(t)
+        except RecursionError:
+            continue
+        for comb in TS.all_combs(len(convs), 1):       # first use of the convertors
+            try:
+                generate_microdata(harvest(F.get_tree(comb), random.Random(0)), [convs[i] for i in comb], [F.null_mappings[i] for i in comb], random.Random(1))
+            except IndexError:
+                pass
+        df2 = t["df"].copy()
+        k = R.choice([1000, 1e-3, 37]); sh = R.choice([0, 5, -250])
+        numeric = False
+        for c, kd in zip(df2.columns, t["kinds"]):
+            if kd == "int": df2[c] = df2[c] * int(max(2, k)) + int(sh); numeric = True
+            elif kd == "float": df2[c] = df2[c] * k + sh; numeric = True
+            elif kd == "ts": df2[c] = df2[c] + pd.Timedelta(days=int(R.choice([400, 4000]))); numeric = True
+        t2 = dict(t, df=df2)
+        try:
+            data2 = apply_convertors(convs, df2)
+            F2 = Forest(t["ap"], t["bp"], UniquePidCountersFactory(), pd.DataFrame({"RowIndex": range(1, len(df2) + 1)}), data2)
+            for i, cv in enumerate(convs):
+                cv.analyze_tree(F2.get_tree((i,)))
+        except RecursionError:
+            continue
+        lines, exps, metas = [], [], []
+        for comb in TS.all_combs(len(convs), 2):
+            cvs = [convs[i] for i in comb]; nulls = [F2.null_mappings[i] for i in comb]
+            buckets = harvest(F2.get_tree(comb), random.Random(0))
+            rng = TS.RecRandom(1)
+            try:
+                rows = generate_microdata(buckets, cvs, nulls, rng)
+                exp = [" ".join(cell_tok(v) for v in row) for row in rows] + ["left 0"]
+            except IndexError:
+                rows, exp = None, ["ERR index"]
+            lines.append(micro_request(cvs, nulls, buckets, rng.log)); exps.append(exp); metas.append(comb)
+            S.count((repr(df2.values.tolist()), comb, repr(t["ap"])), numeric and rows is not None,
+                    {"table": typed_summary(t2), "comb": comb, "rows": None if rows is None else len(rows)}, tag="/".join(t["kinds"][i] for i in comb))
+            if oracle and rows is not None:
+                oracle(t2, F2, comb, cvs, nulls, buckets, rows)
+        if built and lines:
+            got = TS.split_replies(drive(lines, timeout=900))
+            for l, e, g, comb in zip(lines, exps, got, metas):
+                if e != g:
+                    kx = next((i for i, (a, b) in enumerate(zip(e, g)) if a != b), min(len(e), len(g)))
+                    S.mismatch({"table": typed_summary(t2), "comb": comb, "request": l[:300]}, g[kx] if kx < len(g) else "<missing>", e[kx] if kx < len(e) else "<missing>", f"(row {kx})")
+    ctx.obligation(f"correspondence {name} (second use of re-fitted convertors, cells exact)", "correspondence", S.d["mismatches"] == 0, f"{S.d['mismatches']} mismatches")
     return S
 
 
